@@ -1210,11 +1210,11 @@ SUBCHECKS = [
                   'io_decays', 'io_valid', 'resources', 'res_tags', 'empty_tag_map', 'helper:unknown', 'helper:size', 'helper:frustum',
                   'empty_choice_name', 'default_needs_escape')
         + tuple('type:' + n for n in ('BASE', 'POINT', 'BRUSH', 'ROPES', 'TRACK', 'FILTER', 'NPC', 'EXTEND'))),
-    Sub('binary', execute_binary, strategy=gen_bin_strategy, enumerate=binary_enumerate, quick=240, thorough=6000,
+    Sub('binary', execute_binary, strategy=gen_bin_strategy, enumerate=binary_enumerate, quick=240, thorough=5000,
         quick_shards=8, floor=50, enum_counts_distinct=True,
         must_hit=('shipped_slice', 'generated', 'alias', 'nobase', 'kv_default', 'kv_readonly', 'flags', 'res_tags',
                   'empty_tag_map')),
-    Sub('lazy', execute_lazy, strategy=lazy_strategy, quick=160, thorough=5000, quick_shards=8, floor=20,
+    Sub('lazy', execute_lazy, strategy=lazy_strategy, quick=160, thorough=4000, quick_shards=8, floor=20,
         must_hit=('alias_before_base', 'then_full', 'repeat_query', 'via_api')),
 ]
 
